@@ -1,5 +1,5 @@
 (* Extraction of the byte-core model for the correspondence check (ExtrOcamlBasic only). *)
-From Verif Require Import Bytes Base64 LineBreaker QP HeaderFold WordEnc Writer Smime Crypto Builder Setters.
+From Verif Require Import Bytes Base64 LineBreaker QP HeaderFold WordEnc Writer Smime Crypto Builder Setters Paths.
 Require Extraction.
 Require Import ExtrOcamlBasic.
 Extraction "model.ml"
@@ -10,4 +10,5 @@ Extraction "model.ml"
   WordEnc.word_encode Writer.write_to Writer.unlimited Writer.fail_at Writer.enc_of_name Writer.sanitize Writer.file_headers Writer.has_mixed Writer.has_related Writer.has_alt
   Smime.write_to_signed Smime.sign_input Crypto.sha256
   Builder.build Builder.apply_bop Builder.empty_state
-  Setters.apply_cop Setters.new_state.
+  Setters.apply_cop Setters.new_state
+  Paths.run_op Paths.run_ops Paths.render_plain Paths.render_signed.
